@@ -1,16 +1,16 @@
 package main
 
 import (
-	"runtime"
-	"time"
 	"fmt"
 	"io"
 	"math/rand"
 	"os"
 	"path/filepath"
+	"runtime"
 	"strconv"
 	"strings"
 	"sync"
+	"time"
 
 	"github.com/folbricht/desync"
 )
